@@ -1,0 +1,77 @@
+//go:build verif
+
+package gohlslib
+
+import (
+	"context"
+	"sync/atomic"
+)
+
+// Instrumentation used by the conformance harness in /verif. Compiled only with -tags verif.
+
+type verifHookFunc func(name string, args ...int64)
+
+var verifHook atomic.Pointer[verifHookFunc]
+
+// verifPoint reports that execution reached a named point. The installed hook may block
+// (the harness uses that to gate goroutines at synchronization points).
+func verifPoint(name string, args ...int64) {
+	if h := verifHook.Load(); h != nil {
+		(*h)(name, args...)
+	}
+}
+
+// VerifSetHook installs (or, with nil, removes) the hook called at every verifPoint.
+func VerifSetHook(f func(name string, args ...int64)) {
+	if f == nil {
+		verifHook.Store(nil)
+		return
+	}
+	hf := verifHookFunc(f)
+	verifHook.Store(&hf)
+}
+
+// VerifQueue exposes the client's unexported segment queue to the harness.
+type VerifQueue struct {
+	q *clientSegmentQueue
+}
+
+// NewVerifQueue allocates an initialized segment queue.
+func NewVerifQueue() *VerifQueue {
+	q := &clientSegmentQueue{}
+	q.initialize()
+	return &VerifQueue{q: q}
+}
+
+// Push pushes a segment whose payload is the single byte id (a negative id pushes nil).
+func (v *VerifQueue) Push(id int) {
+	if id < 0 {
+		v.q.push(nil)
+		return
+	}
+	v.q.push(&segmentData{payload: []byte{byte(id)}})
+}
+
+// Pull pulls a segment and returns its id (-1 for nil).
+func (v *VerifQueue) Pull(ctx context.Context) (int, bool) {
+	seg, ok := v.q.pull(ctx)
+	if !ok {
+		return 0, false
+	}
+	if seg == nil {
+		return -1, true
+	}
+	return int(seg.payload[0]), true
+}
+
+// WaitBelow calls waitUntilSizeIsBelow.
+func (v *VerifQueue) WaitBelow(ctx context.Context, n int) bool {
+	return v.q.waitUntilSizeIsBelow(ctx, n)
+}
+
+// Len returns the current queue length.
+func (v *VerifQueue) Len() int {
+	v.q.mutex.Lock()
+	defer v.q.mutex.Unlock()
+	return len(v.q.queue)
+}
